@@ -142,12 +142,12 @@ Definition json_quote (bs : list N) : list N :=
 (** ** strconv.Quote (the printer's strings and quoted keys).
     [is_print] is unicode.IsPrint, kept abstract. *)
 
-Definition hex_n (k : nat) (v : N) : list N :=
-  (fix go (k : nat) (v : N) (acc : list N) : list N :=
-     match k with
-     | O => acc
-     | S k' => go k' (v / 16) (hex_digit (v mod 16) :: acc)
-     end) k v [].
+(** [k] lower-case hexadecimal digits of [v], most significant first. *)
+Fixpoint hex_n (k : nat) (v : N) : list N :=
+  match k with
+  | O => []
+  | S k' => hex_n k' (v / 16) ++ [hex_digit (v mod 16)]
+  end.
 
 Definition go_quote_rune (is_print : N -> bool) (r : N) : list N :=
   if (r =? 34) || (r =? 92) then [92; r]
